@@ -124,11 +124,33 @@ EXT2={
  "C19":" Undeclared names that are automatic tags of other interactions; methods on the URL's own path outside the block.",
  "C20":" Fresh methods sharing parameter names with existing paths or using an existing type through Path; every fresh declaration at every declaration boundary of every recoverable fixture, deletion of every unreferenced named declaration there.",
 }
+REFCAT=" E-REFCAT (reference compiler: real lexemes -> reference resolver -> PASTE substituted and resolved again -> what the sentences say the catalog holds) over every single-file fixture, every closed pool selection"
+EXT3={
+ "C01":" Shared stream schema-rules: every example value x every set of <= 2 / 3 rules (each rule the catalog builder reads in valid, empty and wrongly shaped forms) in 8 schema positions.",
+ "C02":" The schema-rules stream; late Path faults (parameter of an object type / of an undefined type) injected into every Path of the pool documents with the span oracle.",
+ "C03":" The schema-rules stream under every iteration order.",
+ "C04":REFCAT+" and every document the generators of C13 and C19 build: interaction ids in source order, names of servers / types / enums, info and base URLs read back, annotations. The focus method in every HTTP method kind (the other kinds against single departures); one more rendering with an empty line before every bare description.",
+ "C05":" Pool block with an implicit macro holding an implicit URL block that a path-bearing method leaves.",
+ "C06":REFCAT+": the scan-phase forest of the implementation equals the reference forest built from the document's own lexemes; same context rejections.",
+ "C07":REFCAT+" and every generated macro document: the forest after macro expansion equals the reference forest of the PASTE-substituted token stream; undefined / duplicate / cyclic macros seen by the reference are rejected.",
+ "C09":" The schema-rules stream (whatever is accepted serialises and is self-consistent).",
+ "C11":REFCAT+": duplicate names and interactions seen after macro expansion are rejected. Duplicate declarations for ALL names of length <= 3 / 4 over {a _ - 1 A . % ~ e-acute} in ten name-bearing kinds (diagnostic inside one of the two declarations).",
+ "C13":REFCAT+" and every document the generators of C04 and C19 build: pathVariables = the {name} segments for whose prefix some Path declares a property. A tree of five paths with two branches below one parameter: all ordered selections of 3..4 (5) x every assignment of declaring interactions.",
+ "C15":" The line after a description is a minimal directive of EVERY kind (from the keyword table), kept when the document without the Description is accepted.",
+ "C16":" H3': 2-3 projects handed ONE option value, processed at the same time: each result equals the result with freshly made option values.",
+ "C17":" Every ASCII character (but the line ends) and one UTF-8 character for every (lead byte, second byte) pair, inside and at the start of a value, quoted and bare.",
+ "C18":" An option value that served another project before (there with a further ban option): every ordered pair of the six core kinds.",
+ "C19":REFCAT+" and every document the generators of C04 and C13 build: tags of every interaction, tag entries, titles. Every HTTP method kind (each once with Tags as first child, once as last).",
+ "C20":" A declared tag is referred to by every interaction whose automatic tag has its name (not a deletable declaration).",
+}
 for k,v in EXT.items():
     CHECKS[k]["text"]+=v
 for k,v in EXT2.items():
     CHECKS[k]["text"]+=v
+for k,v in EXT3.items():
+    CHECKS[k]["text"]+=v
 ENGINES=[
+ {"name":"E-REFCAT","path":"internal/checks/refcat.go","serves_properties":[],"kind_free_text":"reference compiler (real lexemes -> reference resolver of C06 -> PASTE substitution -> expected interactions, tags, path variables, names, faults) run over fixtures, pool selections and, through a tap, the documents of the generators of C04 / C13 / C19; serves C04 C06 C07 C11 C13 C19 next to their own engines"},
  {"name":"E-SCAN","path":"internal/escan","serves_properties":["C14"],"kind_free_text":"explicit-state BFS over the real scanner.Next with a per-byte hook; abstract key cross-checked by second representatives"},
  {"name":"E-STREAMS","path":"internal/checks/streams.go","serves_properties":[],"kind_free_text":"deterministic enumerations of projects shared (as code) by the aggregating checks: scanner-state and context-state representatives (prepared once by the parent), directive-variant sequences, paste graphs, include graphs and file-system states, corpus one-line-edit neighbourhood, option sets, stress names"},
  {"name":"E-SCHED","path":"cmd/vinstr (sched mode) + shim/vsync + internal/checks/c16.go","serves_properties":[],"kind_free_text":"cooperative scheduler shim replacing sync in the library (overlay), access hooks inserted by the typed instrumenter, preemption-bounded DFS, vector-clock race monitor, linearizability oracle, free-running -race pass"},
